@@ -189,6 +189,106 @@ def check_sentinels(P, R, rid):
 
 
 
+def check_minus_one_sentinels(P, R, rid):
+    """offsets that use -1 for "not there" (`match.start(group)`, `str.find`): the test for "found" admits offset 0"""
+    n = 0
+    for m in P.all_funcs():
+        if m.module.name != MP or isinstance(m.node, ast.Lambda):
+            continue
+        g, rd = m.cfg, m.rd
+        for tn in g.nodes:
+            if tn.kind != 'test' or tn.ast is None:
+                continue
+            for x in ast.walk(tn.ast):
+                cp = compare_parts(x) if isinstance(x, ast.Compare) else None
+                if not (cp and isinstance(cp[0], ast.Name) and isinstance(cp[2], (ast.Constant, ast.UnaryOp))):
+                    continue
+                defs = rd.at(tn, cp[0].id)
+                if not (defs and all(d.value is not None and isinstance(d.value, ast.Call) and call_attr(d.value) in ('start', 'end', 'find', 'rfind') for d in defs)):
+                    continue
+                if any(call_attr(d.value) in ('start', 'end') and not d.value.args for d in defs):
+                    continue      # whole-match offsets are never -1
+                c2 = cp[2]
+                val = c2.value if isinstance(c2, ast.Constant) else (-c2.operand.value if isinstance(c2.op, ast.USub) and isinstance(c2.operand, ast.Constant) else None)
+                if not isinstance(val, int) or isinstance(val, bool):
+                    continue
+                n += 1
+                ok = (cp[1] is ast.GtE and val == 0) or (cp[1] is ast.Lt and val == 0) or (cp[1] in (ast.Eq, ast.NotEq) and val == -1) or (cp[1] is ast.Gt and val == -1) \
+                    or (cp[1] is ast.LtE and val == -1)
+                R.ob(rid, m, x, ok, text=f'`{short(x)}`  [{cp[0].id} is an offset or -1]', detail='' if ok else
+                     f'`{short(x)}` decides "found" for an offset that is -1 when absent: offset 0 - the terminator standing at the very start of a chunk - is taken for '
+                     f'"not found", so a cut exactly in front of CRLFCRLF leaves the header block open',
+                     why='where a chunk boundary falls must not matter', key_extra='minus-one-sentinel')
+    return n
+
+
+def check_method_tables(P, R, rid):
+    """a dispatch table whose entries are later called through an instance attribute (`self.eat_meth = self._meth_map.get(c)` ... `self.eat_meth(chunk, base)`)
+    holds callables that take exactly the arguments of that call: bound methods, not the plain functions of the class body"""
+    n = 0
+    for c in P.classes.values():
+        if c.module.name != MP:
+            continue
+        for aname, aval in c.attrs.items():
+            if not isinstance(aval, ast.Dict):
+                continue
+            fvals = [v for v in aval.values if isinstance(v, ast.Name) and v.id in c.methods]
+            if not fvals:
+                continue
+            # where is the table consulted, and how is the result called?
+            for m in c.methods.values():
+                for st in walk_shallow(m.node):
+                    if isinstance(st, ast.Assign) and isinstance(st.value, (ast.Call, ast.Subscript)) and f'self.{aname}' in src(st.value):
+                        for t in st.targets:
+                            holder = dotted(t)
+                            if not holder:
+                                continue
+                            for m2 in c.methods.values():
+                                for call in [x for x in walk_shallow(m2.node) if isinstance(x, ast.Call) and dotted(x.func) == holder]:
+                                    for v in fvals:
+                                        fn = c.methods[v.id]
+                                        n += 1
+                                        ok = len(fn.params) == len(call.args) + len(call.keywords)
+                                        R.ob(rid, m2, call, ok, text=f'`{short(call)}` calls `{v.id}` (from {c.name}.{aname}) with the arguments it takes', detail='' if ok else
+                                             f'`{c.name}.{aname}` is built in the class body, so it holds the plain function `{v.id}({", ".join(fn.params)})`, not a bound method: '
+                                             f'`{short(call)}` passes {len(call.args)} argument(s) for {len(fn.params)} parameters and raises TypeError - when only one byte of the '
+                                             f'suffix after a delimiter is in the buffer the parse fails',
+                                             why='a read boundary right after a delimiter must not change the result', key_extra=f'table-arity:{v.id}')
+    return n
+
+
+def check_eater_identity(P, R, rid):
+    """iter_markup keeps the method of the section in progress in self.cur_meth across chunks and recognises it by comparing with `eat_headers` / `eat_data`.
+    If `eat_headers` is read from `self.headers_eater` on every call, that object must stay the same between chunks: nothing outside __init__ replaces it."""
+    bm = P.cls(f'{MP}:BodyMarkuper')
+    im = bm.methods.get('iter_markup')
+    if im is None:
+        return
+    fresh_reads = []
+    for st in walk_shallow(im.node):
+        if isinstance(st, ast.Assign):
+            pairs = list(zip(st.targets[0].elts, st.value.elts)) if isinstance(st.targets[0], ast.Tuple) and isinstance(st.value, ast.Tuple) and \
+                len(st.targets[0].elts) == len(st.value.elts) else [(st.targets[0], st.value)]
+            for (t_, v_) in pairs:
+                d0 = dotted(v_) or ''
+                if d0.startswith('self.') and d0.count('.') == 2:        # self.<object>.<method>
+                    fresh_reads.append((st, d0.split('.')[1]))
+    for (st, attr) in fresh_reads:
+        rebinds = []
+        for m in bm.methods.values():
+            if m.name == '__init__':
+                continue
+            for s2 in walk_shallow(m.node):
+                if isinstance(s2, ast.Assign) and any(dotted(t_) == f'self.{attr}' for t_ in s2.targets):
+                    rebinds.append((m, s2))
+        for (m, s2) in rebinds:
+            R.ob(rid, m, s2, False, text=f'`{short(s2)}` while iter_markup takes its section method from self.{attr} on every call', detail=
+                 f'`{short(s2)}` replaces the object whose method iter_markup saved in self.cur_meth at the end of a chunk; on the next chunk the saved method belongs to the '
+                 f'old object and `{short(st)}` reads the new one, the comparison fails and the section is mistaken for the opening delimiter (assertion -> parse error)',
+                 why='a read boundary inside a header block must not change the result', key_extra=f'eater-identity:{attr}')
+        R.ob(rid, im, st, not rebinds, text=f'self.{attr} (source of a section method) is bound in __init__ only', nontrivial=False, key_extra=f'eater-stable:{attr}')
+
+
 def check_extra_state(P, R, rid_e, rid_c):
     bmk = P.cls(f'{MP}:BodyMarkuper')
     ed = P.func(f'{MP}:BodyMarkuper._eat_data')
@@ -420,6 +520,9 @@ def check(P, R):
          'seeing the closing delimiter is not remembered for later chunks')
 
     check_sentinels(P, R, 'C06.d')
+    check_minus_one_sentinels(P, R, 'C06.d')
+    check_method_tables(P, R, 'C06.d')
+    check_eater_identity(P, R, 'C06.e')
 
     # ---- e
     ed = P.func(f'{MP}:BodyMarkuper._eat_data')
